@@ -322,15 +322,27 @@ class RaceLab:
     """one server, a pool of tenants; trials are run in rounds of `lanes` independent tenants"""
 
     def __init__(self, tag, sd, ntenants=600, lanes=12):
-        self.tag, self.lanes = tag, lanes
+        self.tag, self.lanes, self.ntenants = tag, lanes, ntenants
         self.rnd = random.Random(sd * 1000003 + 1499 + sum(ord(c) for c in tag))
-        self.pool = ["r%s%04d" % (tag, i) for i in range(ntenants)]
-        self.srv = srvlib.Server(config=SERVER_CFG, api_keys=[{"tenant_id": t, "max_vectors": LIMIT} for t in self.pool],
-                                 name="c14r" + tag)
+        self.gen = 0
         self.traces = {}          # tenant -> [events]
         self.detail = {}          # tenant -> [detail per event]
         self.void = 0
         self.trials = 0
+        self.log = ""
+        self.new_server()
+
+    def new_server(self):
+        """a fresh server (fresh data directory) with a fresh pool of tenants"""
+        self.gen += 1
+        self.pool = ["r%s%d_%04d" % (self.tag, self.gen, i) for i in range(self.ntenants)]
+        self.srv = srvlib.Server(config=SERVER_CFG, api_keys=[{"tenant_id": t, "max_vectors": LIMIT} for t in self.pool],
+                                 name="c14r%s%d" % (self.tag, self.gen))
+
+    def end_server(self):
+        self.log = self.srv.log_tail(1500)
+        self.srv.kill()
+        self.srv.close()
 
     def jitter(self):
         r = self.rnd
@@ -388,23 +400,26 @@ class RaceLab:
         return drifted
 
     def run(self, cases):
-        self.srv.start()
-        try:
-            todo = [c for c, reps in cases for _ in range(reps)]
-            self.rnd.shuffle(todo)
-            lanes = [self.pool.pop() for _ in range(self.lanes)]
-            while todo:
-                work = [(lanes[i], todo.pop()) for i in range(min(self.lanes, len(todo)))]
-                bad = self.run_round(work)
-                for i, t in enumerate(lanes):
-                    if t in bad:
-                        if not self.pool:
-                            raise ToolError("race lab ran out of tenants")
-                        lanes[i] = self.pool.pop()
-        finally:
-            self.log = self.srv.log_tail(1500)
-            self.srv.kill()
-            self.srv.close()
+        todo = [c for c, reps in cases for _ in range(reps)]
+        self.rnd.shuffle(todo)
+        while todo:
+            self.srv.start()
+            try:
+                lanes = [self.pool.pop() for _ in range(self.lanes)]
+                while todo and lanes:
+                    work = [(lanes[i], todo.pop()) for i in range(min(len(lanes), len(todo)))]
+                    bad = self.run_round(work)
+                    keep = []
+                    for t in lanes:
+                        if t not in bad:
+                            keep.append(t)
+                        elif self.pool:
+                            keep.append(self.pool.pop())
+                    lanes = keep if len(keep) == self.lanes or not todo else []     # pool used up: next server
+            finally:
+                self.end_server()
+            if todo:
+                self.new_server()
         return self
 
 
